@@ -331,6 +331,7 @@ func runC14(p *eng.Prog, r *eng.Report, tier string) {
 	c14Options(c)
 	c14OwnAttrs(c)
 	typedAttrsThroughOwnDecoder(c, "C14.7")
+	c14TrimmerFiltersEveryToken(c, "C14.8")
 	c07Fallback(c)
 	// ---- C14.4b the *Func options refuse nil funcs too ---------------------------------
 	// a nil func converted to the handler interface is a NON-nil interface: the
@@ -980,4 +981,45 @@ func typedAttrsThroughOwnDecoder(c *cx, id string) {
 		}
 	}
 	c.r.Floor(id, "typed attribute fields with a decoder of their own", n, 1)
+}
+
+// c14TrimmerFiltersEveryToken (C14.8): mux.iqRouter finds an IQ's payload
+// through decl.TrimLeftSpace, which drops EVERY whitespace-only character data
+// token in front of the first start element (white space may arrive in several
+// tokens: a CDATA section, a chunked source). In (*trimmer).Token every token
+// that is handed on was read at the single read site at the top of the filter
+// (the whitespace arm continues by calling Token again or by looping back to
+// that site): a second, direct read of the wrapped reader returns its token
+// unfiltered.
+func c14TrimmerFiltersEveryToken(c *cx, id string) {
+	f := c.fn(id, "internal/decl", "(*trimmer).Token")
+	if f == nil {
+		return
+	}
+	n := 0
+	for _, cl := range f.AllCalls() {
+		sel, ok := ast.Unparen(cl.Fun).(*ast.SelectorExpr)
+		if !ok || sel.Sel.Name != "Token" {
+			continue
+		}
+		if f.Norm(sel.X, nil) == "recv.r" {
+			n++
+		}
+	}
+	c.r.Check(id, f, "single read site of the wrapped reader", "O: the filter reads the wrapped reader at one site; skipping continues through the filter itself (recursion or a loop back to that site)", f.Pos(), n == 1, itoa(n)+" direct reads of the wrapped reader: a token read at a second site is handed on without the whitespace test")
+	// the whitespace arm does not hand the skipped token on: from the point where
+	// all characters were found to be white space, no return of the read token
+	g := f.Graph()
+	for _, rs := range g.Returns {
+		if len(rs.Results) != 2 {
+			continue
+		}
+		pt, _ := g.Where(rs)
+		if ok, _ := g.Dominated(pt, "!rangenext(*)"); ok {
+			// after the character loop ran to its end: the token is white space only
+			nrm := f.Norm(rs.Results[0], &pt)
+			okr := nrm == "nil" || strings.Contains(nrm, "decl.trimmer.Token[recv]()")
+			c.r.Check(id, f, "white space is not handed on", "O: after the character loop found only white space the filter returns nil with an error or continues with the next token through itself", rs.Pos(), okr, "returns "+nrm)
+		}
+	}
 }
